@@ -260,7 +260,7 @@ def run(ctx):
     cand = M.one(sk.node.body, "$dis = '-~' if stable else '-'\n$cand = {$x.lstrip('~') for $other in repo.match(pkg.unversioned_atom) for $x in $other.keywords if $x[0] not in $dis}")
     ctx.check("R5", sk, cand is not None, "candidates", "candidates: stable (stabilizing) / any non-negative (keywording) keywords of the package's versions")
     CE = {"cand": cand["cand"]} if cand else {}
-    ifs = [n for n in sk.node.body if isinstance(n, ast.If) and A.unparse(n.test) == "stable"]
+    ifs = [n for n in sk.node.body if isinstance(n, ast.If) and A.unparse(n.test) == "stable" and not getattr(n, "_from_ternary", False)]
     ctx.require(len(ifs) == 1, "suggested_keywords: stable branch not found")
     arm, other = eff(ifs[0].body), eff(ifs[0].orelse)
     tb = A.unparse(arm[-1]) if arm else ""
